@@ -40,6 +40,8 @@ M = {
     "M28-clock-set-after-reschedule": (SIM, "        self.time = event.time\n        if event.fn() == self.model.step:\n            self.schedule_event_next_tick(self.model.step, priority=Priority.HIGH)\n",
                                        "        if event.fn() == self.model.step:\n            self.schedule_event_next_tick(self.model.step, priority=Priority.HIGH)\n        self.time = event.time\n"),
     "M29-run-next-skips-clock": (SIM, "        else:\n            self._execute_event(event)\n", "        else:\n            event.execute()\n"),
+    "M31-steps-incremented-after-user-step": ("mesa/model.py", "        self.steps += 1\n        _mesa_logger.info(f\"calling model.step for timestep {self.steps} \")\n        # Call the original user-defined step method\n        self._user_step(*args, **kwargs)\n",
+                                              "        _mesa_logger.info(f\"calling model.step for timestep {self.steps} \")\n        # Call the original user-defined step method\n        self._user_step(*args, **kwargs)\n        self.steps += 1\n"),
     "M26-run-for-from-start": (SIM, "end_time = self.time + time_delta", "end_time = self.start_time + time_delta if self.time == self.start_time else self.time + time_delta + 0"),
 }
 
